@@ -89,6 +89,13 @@ def project(tree, e):
     return ("proj", tree, hashable(e))
 
 
+def mkref(t):
+    """&*x is x (a reborrow denotes the same reference)"""
+    if t[0] == "*":
+        return t[1]
+    return ("&", t)
+
+
 def tuple_first(ty):
     if ty and ty.startswith("(") and "," in ty:
         return ty[1:].split(",")[0].strip()
@@ -194,7 +201,7 @@ class Exprs:
                 return a
             return ("cast", rv["cast_ty"], a, operand_ty(self.f, rv["a"][0]))
         if op in ("ref", "addr"):
-            return ("&", self.place(rv["place"]))
+            return mkref(self.place(rv["place"]))
         if op == "discr":
             return ("discr", self.place(rv["place"]))
         if op == "agg":
@@ -270,7 +277,7 @@ class PathEval:
         if op == "cast":
             return ("cast", rv["cast_ty"], self.operand(rv["a"][0]), operand_ty(self.f, rv["a"][0]))
         if op in ("ref", "addr"):
-            return ("&", self.place(rv["place"]))
+            return mkref(self.place(rv["place"]))
         if op == "discr":
             return ("discr", self.place(rv["place"]))
         if op == "agg":
@@ -530,6 +537,8 @@ def subst(tree, mapping):
         inner = subst(tree[1], mapping)
         if k == "*" and inner[0] == "&":
             return inner[1]
+        if k == "&" and inner[0] == "*":
+            return inner[1]
         return (k, inner)
     if k in ("f", "dc", "cidx", "proj"):
         inner = subst(tree[1], mapping)
@@ -599,3 +608,123 @@ def show(tree, depth=0):
     if k == "discr":
         return "discr(%s)" % show(tree[1], d)
     return str(tree)[:80]
+
+
+class Inliner:
+    """replaces calls to loop-free, single-path workspace functions by their returned tree (bounded depth)"""
+
+    def __init__(self, prog, max_depth=6, only=None):
+        self.prog = prog
+        self.max_depth = max_depth
+        self.only = only
+        self._sum = {}
+        self._depth = 0
+
+    def summary(self, key):
+        if key in self._sum:
+            return self._sum[key]
+        self._sum[key] = None
+        f = self.prog.fns.get(key)
+        if f is None or (self.only is not None and not self.only(key)):
+            return None
+        from .cfg import Cfg
+        cfg = Cfg(f)
+        if cfg.has_loops():
+            return None
+        try:
+            paths = [p for p in cfg.acyclic_paths(limit=64) if f["blocks"][p[-1]]["term"]["k"] == "return"]
+        except OverflowError:
+            return None
+        if len(paths) != 1:
+            return None
+        if self._depth >= self.max_depth:
+            return None
+        self._depth += 1
+        try:
+            pe = PathEval(f, paths[0], inliner=self)
+            self._sum[key] = pe.ret()
+        finally:
+            self._depth -= 1
+        return self._sum[key]
+
+    def __call__(self, key, args):
+        s = self.summary(key)
+        if s is None:
+            return None
+        return subst(s, {("param", i + 1): a for i, a in enumerate(args)})
+
+
+def compile_int_tree(tree, leaf_names):
+    """compile an integer tree into a python function over the named leaves (same semantics as fold; raises
+    Unfoldable for anything fold does not know). leaf_names: {leaf tree: python identifier}"""
+    def ones(ty):
+        b = INT_BITS.get(ty)
+        if b is None:
+            raise Unfoldable("type %s" % ty)
+        return (1 << b) - 1
+
+    def wrap(e, ty):
+        if is_signed(ty):
+            raise Unfoldable("signed arithmetic is not compiled")
+        return "((%s) & %d)" % (e, ones(ty))
+
+    def go(t):
+        if t in leaf_names:
+            return leaf_names[t]
+        k = t[0]
+        if k == "c":
+            return str(fold(t))
+        if k == "cast":
+            if is_signed(tree[3] or "") or is_signed(t[1]):
+                raise Unfoldable("signed cast")
+            return wrap(go(t[2]), t[1])
+        if k == "bin":
+            op, ty = t[1].replace("Unchecked", "").replace("WithOverflow", ""), t[4]
+            a, b = go(t[2]), go(t[3])
+            if op in ("BitAnd", "BitOr", "BitXor"):
+                return "(%s %s %s)" % (a, {"BitAnd": "&", "BitOr": "|", "BitXor": "^"}[op], b)
+            if op in ("Add", "Sub", "Mul"):
+                return wrap("%s %s %s" % (a, {"Add": "+", "Sub": "-", "Mul": "*"}[op], b), ty)
+            if op == "Shl":
+                return wrap("%s << (%s %% %d)" % (a, b, INT_BITS[ty]), ty)
+            if op == "Shr":
+                if is_signed(ty):
+                    raise Unfoldable("signed shift")
+                return "(%s >> (%s %% %d))" % (a, b, INT_BITS[ty])
+            raise Unfoldable("binop %s" % op)
+        if k == "f" and t[1][0] == "call" and t[2] == "0" and t[1][1].startswith("core::num") and t[1][1].rsplit("::", 1)[-1].startswith("overflowing_"):
+            inner = t[1]
+            opn = inner[1].rsplit("::", 1)[-1][len("overflowing_"):]
+            ty = inner[1].split("<")[1].split(">")[0]
+            a, b = go(inner[2][0]), go(inner[2][1])
+            return wrap("%s %s %s" % (a, {"mul": "*", "add": "+", "sub": "-"}[opn], b), ty)
+        if k == "call" and t[1].startswith("core::num") and t[1].rsplit("::", 1)[-1] in ("wrapping_mul", "wrapping_add", "wrapping_sub"):
+            ty = t[1].split("<")[1].split(">")[0]
+            a, b = go(t[2][0]), go(t[2][1])
+            return wrap("%s %s %s" % (a, {"wrapping_mul": "*", "wrapping_add": "+", "wrapping_sub": "-"}[t[1].rsplit("::", 1)[-1]], b), ty)
+        raise Unfoldable("node %s" % k)
+    src = "lambda %s: %s" % (", ".join(leaf_names[k] for k in leaf_names), go(tree))
+    return eval(src), src
+
+
+def resolve_promoted(prog, tree):
+    """replace references to promoted constants (`&CONST` lowered to `const fn::promoted[n]`) by the tree of the
+    promoted body, so that `*promoted` becomes the named constant"""
+    def go(t):
+        if not isinstance(t, tuple):
+            return t
+        if t[0] == "c" and t[3] and "#p" in t[3]:
+            fk, n = t[3].rsplit("#p", 1)
+            body = prog.fns.get("%s::promoted[%s]" % (fk, n))
+            if body is not None:
+                from .cfg import Cfg
+                paths = Cfg(body).acyclic_paths()
+                if len(paths) == 1:
+                    return PathEval(body, paths[0]).ret()
+            return t
+        return t
+    mapping = {}
+    for x in leaves(tree):
+        if isinstance(x, tuple) and x[0] == "c" and x[3] and "#p" in str(x[3]):
+            mapping[x] = go(x)
+    return subst(tree, mapping) if mapping else tree
